@@ -34,10 +34,20 @@ def ite(eng, c, a, b):
     return SV(z3.If(_b(eng, c), zreal(a), zreal(b)), "real")
 
 
+_GHOST_A = {"bden": "aden", "sden": "asden"}
+
+
+def _g(eng, name):
+    """fold name under the ghost assignment currently selected (contracts proved for an arbitrary assignment are
+    also assumed, at call sites, for the second ghost)"""
+    return _GHOST_A.get(name, name) if getattr(eng, "ghost", "x") == "a" else name
+
+
 def _mkfold(name):
     def f(eng, d):
-        F = FO.FOLDS[name]
-        r = FO.fold(eng, eng.store_of(d), name)
+        nm = _g(eng, name)
+        F = FO.FOLDS[nm]
+        r = FO.fold(eng, eng.store_of(d), nm)
         return SV(r, "bool" if F.kind == "all" else ("real" if F.sort == T.Real else "int"))
     f.__name__ = name
     return f
@@ -153,7 +163,7 @@ def smono(eng, k):
 def den(eng, o):
     """denotation of a model object at the ghost assignment, in the model's own domain"""
     cls = _cls_of(eng, o)
-    name = "sden" if is_spin_class(eng, cls) else "bden"
+    name = _g(eng, "sden" if is_spin_class(eng, cls) else "bden")
     return SV(FO.fold(eng, eng.store_of(o), name), "real")
 
 
@@ -245,7 +255,7 @@ def keysvalid(eng, o, d):
 def den_as(eng, o, d):
     """denotation of the dict/model d read in the domain (boolean/spin) of the class of o"""
     cls = _cls_of(eng, o)
-    name = "sden" if is_spin_class(eng, cls) else "bden"
+    name = _g(eng, "sden" if is_spin_class(eng, cls) else "bden")
     return SV(FO.fold(eng, eng.store_of(d), name), "real")
 
 
@@ -254,7 +264,10 @@ def mono_as(eng, o, k):
     cls = _cls_of(eng, o)
     e = eng.as_key(k)
     eng.facts.key(e)
-    return SV(T.smono(e) if is_spin_class(eng, cls) else T.bmono(e), "real")
+    a = getattr(eng, "ghost", "x") == "a"
+    if is_spin_class(eng, cls):
+        return SV(T.asmono(e) if a else T.smono(e), "real")
+    return SV(T.amono(e) if a else T.bmono(e), "real")
 
 
 @spec
@@ -568,8 +581,9 @@ def domcard(eng, d):
 
 @spec
 def bk(eng, o):
-    """bookkeeping invariant (C14): the variable counter is the size of the variable set; for labelled models the
-    mapping enumerates exactly the reported variables and the next free label is the number of mapped labels"""
+    """bookkeeping invariant (C14): the variable counter is the size of the variable set, which contains every label
+    of a stored key; for labelled models the mapping enumerates exactly the reported variables and the next free
+    label is the number of mapped labels"""
     vs = eng.get_attr_raw(o, "_variables")
     nv = eng.get_attr_raw(o, "_num_binary_variables")
     if eng.old is not None and id(vs) in eng.old:
@@ -577,6 +591,8 @@ def bk(eng, o):
     else:
         mem, card = vs.mem, vs.card
     parts = [zint(nv) == card]
+    # the reported variables contain every label of a stored key
+    parts.append(FO.pfold_subset(eng, eng.store_of(o), mem))
     if eng.db.is_subclass(o.cls, "BO"):
         mp = eng.store_of(eng.get_attr_raw(o, "_mapping"))
         parts.append(mp.dom == mem)
@@ -590,3 +606,37 @@ def anc_of(eng, o):
     if isinstance(o, PObj) and "_ancilla" in o.attrs:
         return eng.get_attr_raw(o, "_ancilla")
     return 0
+
+
+# ------------------------------------------------------------------ relabelling through a mapping (C04)
+@spec
+def aden(eng, d):
+    eng.facts.enable_ghost("a")
+    return SV(FO.fold(eng, eng.store_of(d), "aden"), "real")
+
+
+@spec
+def asden(eng, d):
+    eng.facts.enable_ghost("a")
+    return SV(FO.fold(eng, eng.store_of(d), "asden"), "real")
+
+
+@spec
+def maplinked(eng, m):
+    """the first ghost assignment is the second one composed with the mapping: x(i) == a(m[i]) on dom(m)"""
+    ver = eng.store_of(m)
+    eng.facts.enable_ghost("a")
+    return SV(T.linked(ver.dom, ver.val), "bool")
+
+
+@spec
+def keys_within(eng, d, s):
+    """every key of the dict has all its labels in the label set s"""
+    return SV(FO.pfold_subset(eng, eng.store_of(d), _lset(eng, s)), "bool")
+
+
+@spec
+def mapvals_ok(eng, m):
+    """every value of the label -> integer mapping is a non-negative int (part of the C14 invariant)"""
+    ver = eng.store_of(m)
+    return SV(T.nonnegvals(ver.dom, ver.val), "bool")
